@@ -824,6 +824,9 @@ class Element(object):
         """
         if self.parent is not None:
             return self.parent.encoding_chars
+        if self.traversal_parent is not None:
+            # created while traversing and not attached yet: the element it is going to belong to decides
+            return self.traversal_parent.encoding_chars
         return get_default_encoding_chars(self.version)
 
     def _find_structure(self, reference=None):
